@@ -17,16 +17,17 @@ from harness import c14_gen as G
 from harness import schema_xml as X
 
 PROP = "C14"
-# 1 = the code after the fix: commits for C14-F1 (validators only run on attributes declared for the section) and
-# C14-F2 (verify_tag_id / tag_is_deprecated_check use the entry's own inLibrary value): the model runs with
+# 1 = the code as it is in /repo, i.e. after the fix: commits 55e2b09 (C14-F1: validators only run on attributes declared
+# for the section), 5844fee (C14-F2: verify_tag_id / tag_is_deprecated_check use the entry's own inLibrary value) and
+# 4796114 (C14-F3: value-less allowedCharacter in the name check): the model runs with
 # fixed_all and the oracle demands the full statement; 0 = the code before them (model fixed_none, the two classes
 # are accepted as the recorded, repaired defects)
 FIXED = int(os.environ.get("VERIF_C14_FIXED", "1"))
 LEGACY = {
-    "C14-F1": {"property": "C14", "id": "C14-F1", "what": "(repaired; VERIF_C14_FIXED=0) the validators of an attribute "
+    "C14-F1": {"property": "C14", "id": "C14-F1", "what": "(repaired by 55e2b09 / 4796114; VERIF_C14_FIXED=0) the validators of an attribute "
                "that is undeclared for the section were still run; one written for another entry class or for string "
                "values raised AttributeError instead of SCHEMA_ATTRIBUTE_INVALID being reported"},
-    "C14-F2": {"property": "C14", "id": "C14-F2", "what": "(repaired; VERIF_C14_FIXED=0) for a library tag nested under "
+    "C14-F2": {"property": "C14", "id": "C14-F2", "what": "(repaired by 5844fee; VERIF_C14_FIXED=0) for a library tag nested under "
                "a library tag of a partnered 8.3-style schema the inherited inLibrary value 'score,score' named no "
                "library: no id range, an out-of-range hedId was not reported"},
 }
@@ -52,10 +53,16 @@ TRUSTED = [
 ]
 ASSUMPTIONS = [
     "the list of known versions / library id ranges is an input (hed cache directory listing, library_data.json)",
-    "per-rule and seeded-fault theorems are stated over ANY loaded schema record (lschema); for the repaired code they "
-    "need no 'does not raise' hypothesis but 'checkable E L' (environment readable, every declared attribute meets "
-    "rules written for its entry class and value type); that load() produces such a record from the XML is validated "
-    "by correspondence (testing)",
+    "per-rule and seeded-fault theorems are stated over ANY loaded schema record (lschema); for the code in /repo (fix "
+    "commits 55e2b09, 5844fee) they need no 'does not raise' hypothesis but 'checkable E L' (environment readable, every "
+    "declared attribute meets rules written for its entry class and value type). 'checkable' is decidable (boolean pass "
+    "'evaluate', sound), kernel-evaluated to hold for the nine bundled schemas as loaded by the model, proved to be "
+    "preserved by a one-attribute seed at the level of loaded records, and three seeded bundled schemas are taken through "
+    "the theorems with all premises evaluated. NOT proved: that load() of the seeded XML stands in the one-attribute-seed "
+    "relation to load() of the original (a statement about the loader), and that load() produces the record the "
+    "implementation builds -- both are covered by the correspondence run (testing) only",
+    "C14_rule_in_library_header_only holds by construction of the model (the rule receives neither environment nor "
+    "repairs); the implementation's agreement is tested with seeds naming other released libraries",
     "VERIF_C14_FIXED=1 (default): model with both repairs, oracle demands the full statement; an attribute that the "
     "schema generation does not declare for the section (deprecatedFrom / inLibrary before 8.2.0) is expected as "
     "SCHEMA_ATTRIBUTE_INVALID, counted separately",
